@@ -377,7 +377,22 @@ def main(argv=None):
         proofs_ok = check_proofs(ctx, getattr(plugin, 'EXTRA_LEAN_TARGETS', ()))
         driver_ok = os.path.exists(ctx.driver_path()) or os.path.exists(os.path.join(LEAN_DIR, 'Drivers', f'{prop}.lean'))
         ctx.model_available = proofs_ok or os.path.exists(ctx.driver_path())
-        plugin.run(ctx)
+        try:
+            plugin.run(ctx)
+        except (InfraError, subprocess.TimeoutExpired, MemoryError):
+            raise
+        except Exception as exc:
+            # An exception that originates inside the implementation under test (innermost frames in REPO/src) and that the
+            # plugin's adapter did not expect: the implementation no longer behaves as the model/adapter describe.
+            tb = traceback.extract_tb(exc.__traceback__)
+            in_impl = [fr for fr in tb if os.path.abspath(fr.filename).startswith(os.path.abspath(os.path.join(REPO, 'src')))]
+            if not in_impl:
+                raise
+            ctx.stats['disagreements'] += 1
+            ctx.disagreements.append({'stream': 'implementation-raised-in-adapter', 'case': 'see traceback',
+                                      'impl': f'{type(exc).__name__}: {exc}', 'model': 'no exception expected',
+                                      'traceback': traceback.format_exc()[-3000:]})
+            ctx.note('the run was cut short by an unexpected exception raised inside the implementation')
         broken = (not proofs_ok) or bool(ctx.disagreements)
         if broken and not [f for f in ctx.failures if f['finding'] is None] and hasattr(plugin, 'search'):
             plugin.search(ctx)
